@@ -134,7 +134,46 @@ Definition eff_weight (mx w : Z) : Z := if w =? 0 then mx else w.
 
 Definition has_children (k : Z) (st : mgr) : bool := existsb (fun p => m_parent (snd p) =? k) (g_quotas st).
 
-(* UpdateQuota *)
+(* ---------- resetQuotaNoLock (after a change of the allow-lent / is-parent label) ----------
+   rebuildAllGroupQuotaNoLock: every QuotaInfo is cleared (clearForResetNoLock: Request,
+   ChildRequest, Runtime, RuntimeVersion; AutoScaleMin := Min), every calculator is created anew and
+   told about each of its children (updateOneGroupMaxQuota / MinQuota / SharedWeight — a calculator
+   only ever hears about its own children, so it is built here per parent, as the three
+   Calc_Model steps create / min / weight per child), the root calculator gets the cluster total;
+   then every quota's own request (a leaf: the sum of its pods) is replayed bottom-up through
+   updateGroupDeltaRequestNoLock — ALSO when it is zero: that walk is what raises a non-lending
+   quota's request to its min and pushes it to the ancestors. *)
+Definition cleared (mq : mquota) : qinfo :=
+  q_set_weight (q_weight (m_info mq)) (q_set_min (m_min mq) (q_new (q_lend (m_info mq)) (q_max (m_info mq)))).
+
+Definition reinsert (w : world) (e : Z * mquota) : world :=
+  step (step (step w (OCreate (fst e) (q_lend (m_info (snd e))) (q_max (m_info (snd e)))))
+             (OSetMin (fst e) (m_min (snd e))))
+       (OSetWeight (fst e) (q_weight (m_info (snd e)))).
+
+Definition base_calc (p : Z) (st : mgr) : calc :=
+  if p =? 0 then setClusterTotalResource (g_total st) calc0 else calc0.
+
+Definition world_for (p : Z) (st : mgr) : world :=
+  fold_left reinsert (filter (fun e => m_parent (snd e) =? p) (g_quotas st)) (mkW (base_calc p st) []).
+
+Definition clear_quota (e : Z * mquota) : Z * mquota :=
+  (fst e, mkMQ (m_parent (snd e)) (m_isParent (snd e)) (cleared (snd e)) (m_min (snd e)) 0).
+
+Definition rebuilt (st : mgr) : mgr :=
+  remake st (g_total st) (map clear_quota (g_quotas st))
+         ((0, w_calc (world_for 0 st)) :: map (fun e => (fst e, w_calc (world_for (fst e) st))) (g_quotas st))
+         (g_pods st).
+
+Definition replay (s : mgr) (e : Z * mquota) : mgr :=
+  rec_delta (path (fst e) s) (if m_isParent (snd e) then 0 else m_childReq (snd e)) s.
+
+Definition reset (st : mgr) : mgr := fold_left replay (g_quotas st) (rebuilt st).
+
+Definition no_pods (k : Z) (st : mgr) : bool := negb (existsb (fun p => fst (fst p) =? k) (g_pods st)).
+
+(* UpdateQuota.  For a live quota the labels are honoured only with an unchanged parent; the
+   is-parent label only flips on a quota without children and without pods (what the webhook admits) *)
 Definition update_quota (fx : bool) (k par : Z) (isPar lnd : bool) (mx mn w : Z) (st : mgr) : mgr :=
   match afind k (g_quotas st) with
   | None =>
@@ -146,6 +185,14 @@ Definition update_quota (fx : bool) (k par : Z) (isPar lnd : bool) (mx mn w : Z)
       do_weight k (eff_weight mx w) (do_min fx k mn (do_max k mx st1))
   | Some mq =>
       let q := m_info mq in
+      let same_par := par =? m_parent mq in
+      let isPar' := if same_par && negb (has_children k st) && no_pods k st then isPar else m_isParent mq in
+      let lnd' := if same_par then lnd else q_lend q in
+      if negb (Bool.eqb isPar' (m_isParent mq)) || negb (Bool.eqb lnd' (q_lend q)) then
+        (* meta change: updateQuotaInfoFromRemote, then resetQuotaNoLock *)
+        let q1 := mkQ mx (q_req q) (q_min q) (eff_weight mx w) (q_guar q) lnd' (q_rver q) (q_runtime q) in
+        reset (set_quota k (mkMQ (m_parent mq) isPar' q1 mn (m_childReq mq)) st)
+      else
       let st1 := if q_max q =? mx then st else do_max k mx st in
       let st2 := if m_min mq =? mn then st1 else do_min fx k mn st1 in
       if q_weight q =? eff_weight mx w then st2 else do_weight k (eff_weight mx w) st2
